@@ -225,6 +225,7 @@ theorem step_inv1 {s s' : State} {x : Inst} {a : Act} (inv : Inv1 s x) (hsc : in
   | openFresh r g n => simp [inScope] at hsc
   | openFrom r g n w id => simp [inScope] at hsc
   | release i => simp [inScope] at hsc
+  | lateWrite i t => simp [inScope] at hsc
   | redeployFailed i =>
     simp only [step] at hstep
     split at hstep
@@ -709,6 +710,13 @@ theorem step_frame {s s' : State} {a : Act} {j : Nat} {x : Inst} (h : step s a =
     · split at h
       · injection h with h; subst h; exact frame_same (fun _ hu => hu) hj
       · simp at h
+  | lateWrite i t =>
+    simp only [step] at h
+    split at h
+    · simp at h
+    · split at h
+      · injection h with h; subst h; exact frame_same (fun _ hu => List.mem_cons_of_mem _ hu) hj
+      · simp at h
   | flush i t =>
     simp only [step] at h
     split at h
@@ -921,8 +929,20 @@ def CollectJustified (x : Inst) (u : Path) (answers : List Ans) : Prop :=
 
 theorem step_removes_sst {s s' : State} {a : Act} {u : Path} (h : step s a = some s')
     (hin : File.sst u ∈ s.files) (hout : File.sst u ∉ s'.files) :
-    ∃ i answers x, a = .collect i u answers ∧ s.insts[i]? = some x ∧ CollectJustified x u answers := by
+    (∃ i answers x, a = .collect i u answers ∧ s.insts[i]? = some x ∧ CollectJustified x u answers) ∨
+    (∃ i t, a = .lateWrite i t ∧ t.uri = u) := by
   cases a with
+  | lateWrite i t =>
+    simp only [step] at h
+    split at h
+    · simp at h
+    · split at h
+      · injection h with h; subst h
+        by_cases hut : t.uri = u
+        · exact Or.inr ⟨i, t, rfl, hut⟩
+        · refine absurd (List.mem_cons_of_mem _ (mem_rmFile.mpr ⟨hin, ?_⟩)) hout
+          intro he; injection he with he; exact hut he.symm
+      · simp at h
   | openFresh r g n d => simp only [step] at h; injection h with h; subst h; exact absurd hin hout
   | openFrom r g n ws id d =>
     simp only [step] at h
@@ -1013,16 +1033,18 @@ theorem step_removes_sst {s s' : State} {a : Act} {u : Path} (h : step s a = som
       · exact huv
       · exact absurd (hkeep _ hin (by intro he; injection he with he; exact huv he)) hout
     subst huv
-    refine ⟨i, answers, x, rfl, hx, hun, ?_⟩
+    refine Or.inl ⟨i, answers, x, rfl, hx, hun, ?_⟩
     rcases hwhy hin hout with hc | ⟨t, ht, htu, hd⟩
     · exact Or.inl hc
     · exact Or.inr ⟨t, ht, htu, decision_delete_cases _ _ _ hd⟩
 
-/-- in any history a table file disappears only through a justified collection of that very table -/
+/-- in any history a table file disappears only through a justified collection of that very table, or because a
+late background write of a released instance (D63) overwrites it -/
 theorem run_removes_sst {as : List Act} : ∀ {s s' : State} {u : Path}, run s as = some s' →
     File.sst u ∈ s.files → File.sst u ∉ s'.files →
-    ∃ pre i answers post sm x, as = pre ++ Act.collect i u answers :: post ∧ run s pre = some sm ∧
-      sm.insts[i]? = some x ∧ CollectJustified x u answers := by
+    (∃ pre i answers post sm x, as = pre ++ Act.collect i u answers :: post ∧ run s pre = some sm ∧
+      sm.insts[i]? = some x ∧ CollectJustified x u answers) ∨
+    (∃ pre i t post, as = pre ++ Act.lateWrite i t :: post ∧ t.uri = u) := by
   induction as with
   | nil => intro s s' u h hin hout; simp only [run] at h; injection h with h; subst h; exact absurd hin hout
   | cons a as ih =>
@@ -1031,11 +1053,13 @@ theorem run_removes_sst {as : List Act} : ∀ {s s' : State} {u : Path}, run s a
     split at h
     · rename_i s1 hs
       by_cases h1 : File.sst u ∈ s1.files
-      · obtain ⟨pre, i, answers, post, sm, x, has, hpre, hx, hj⟩ := ih h h1 hout
-        refine ⟨a :: pre, i, answers, post, sm, x, by rw [has]; rfl, ?_, hx, hj⟩
-        simp only [run, hs]; exact hpre
-      · obtain ⟨i, answers, x, ha, hx, hj⟩ := step_removes_sst hs hin h1
-        exact ⟨[], i, answers, as, s, x, by rw [ha]; rfl, rfl, hx, hj⟩
+      · rcases ih h h1 hout with ⟨pre, i, answers, post, sm, x, has, hpre, hx, hj⟩ | ⟨pre, i, t, post, has, htu⟩
+        · refine Or.inl ⟨a :: pre, i, answers, post, sm, x, by rw [has]; rfl, ?_, hx, hj⟩
+          simp only [run, hs]; exact hpre
+        · exact Or.inr ⟨a :: pre, i, t, post, by rw [has]; rfl, htu⟩
+      · rcases step_removes_sst hs hin h1 with ⟨i, answers, x, ha, hx, hj⟩ | ⟨i, t, ha, htu⟩
+        · exact Or.inl ⟨[], i, answers, as, s, x, by rw [ha]; rfl, rfl, hx, hj⟩
+        · exact Or.inr ⟨[], i, t, as, by rw [ha]; rfl, htu⟩
     · simp at h
 
 /-- why a step may remove WAL file `v` -/
@@ -1138,6 +1162,14 @@ theorem step_removes_wal {s s' : State} {a : Act} {v : Wal} (h : step s a = some
     · simp at h
     · split at h
       · injection h with h; subst h; exact absurd hin hout
+      · simp at h
+  | lateWrite i t =>
+    simp only [step] at h
+    split at h
+    · simp at h
+    · split at h
+      · injection h with h; subst h
+        exact absurd (List.mem_cons_of_mem _ (mem_rmFile.mpr ⟨hin, by intro he; cases he⟩)) hout
       · simp at h
   | collect i u answers =>
     have hx : ∃ x, s.insts[i]? = some x := by
